@@ -245,6 +245,24 @@ def oracle(case):
             require(d is None, 'model %d (%s): operation %d (%s) gave a different result than on an equal model running the same operations alone: %s'
                     % (i, case['models'][i]['kind'], j, op['op'], d), tag='stream-isolation', detail={'model': i, 'op': j})
         np.random.set_state(st0)
+    # re-seeding: after set_random_state(s) the stream must be the one of an equal model *constructed* with seed s
+    for i in range(nm):
+        idx = [j for j, (op, out) in enumerate(logs[i]) if op['op'] == 'reseed']
+        if not idx:
+            continue
+        j0 = idx[-1]
+        rop = logs[i][j0][0]
+        spec2 = dict(case['models'][i], seed={'kind': rop['as'], 'value': rop['seed']})
+        st0 = np.random.get_state()
+        fresh = value(build, spec2, what='build %s' % spec2['kind'])
+        np.random.set_state(st0)
+        for j, (op, out) in enumerate(logs[i][j0 + 1:]):
+            got = run_op(fresh, op)
+            d = O.first_difference(out, got)
+            require(d is None, 'model %d (%s): after set_random_state(%r) operation %d (%s) differs from an equal model constructed with that seed: %s'
+                    % (i, case['models'][i]['kind'], rop['seed'], j, op['op'], d), tag='reseed-restart', detail={'model': i})
+        np.random.set_state(st0)
+        cls.add('reseed-restart-checked')
     interleaved = len(set(order)) >= 2 and any(order[k] != order[k + 1] for k in range(len(order) - 1))
     for spec in case['models']:
         cls.add('model:' + spec['kind'] + (':' + spec.get('cls', spec.get('family', spec.get('vine_type', ''))) if spec['kind'] != 'gaussian' else ''))
